@@ -940,6 +940,16 @@ pub fn min_explore(ctx: &mut Ctx, case: &MinCase, mode: &str, bound: Option<u32>
     }
 }
 
+fn long_record(len: usize, seed: u64) -> Vec<u8> {
+    let mut x = seed;
+    (0..len)
+        .map(|_| {
+            x = x.wrapping_mul(6364136223846793005).wrapping_add(1442695040888963407);
+            b"ACGT"[((x >> 33) % 4) as usize]
+        })
+        .collect()
+}
+
 pub fn c10_sched(ctx: &mut Ctx) {
     // records sharing minimisers
     let r1 = b"ACAC".to_vec();
@@ -962,6 +972,22 @@ pub fn c10_sched(ctx: &mut Ctx) {
         };
         min_explore(ctx, &case, "s2m", bound, &format!("s2m.{label}"));
         min_explore(ctx, &case, "m2s", bound, &format!("m2s.{label}"));
+    }
+    // a record whose output line is far longer than any I/O buffer (thousands of runs) next to short ones:
+    // the line must still reach the file as one piece under every interleaving
+    let long = long_record(6000, 7);
+    for (threads, recs, bound, label) in [
+        (2usize, vec![long.clone(), r1.clone()], Some(ctx.pick(2, 3)), "N2long"),
+        (2, vec![r1.clone(), long.clone(), long_record(3000, 11)], Some(ctx.pick(1, 2)), "N2long2"),
+        (3, vec![long.clone(), r2.clone(), r1.clone()], Some(ctx.pick(1, 2)), "N3long"),
+    ] {
+        let case = MinCase {
+            threads,
+            w: 3,
+            m: 2,
+            records: recs,
+        };
+        min_explore(ctx, &case, "s2m", bound, &format!("s2m.{label}"));
     }
     if ctx.shard.is_first() {
         ctx.rep.sample("m2s, N=2, records [ACAC, ACAC], w=0 (whole record), m=2: both workers meet minimiser AC for the first time; every interleaving of their map operations".to_string());
@@ -993,6 +1019,8 @@ pub fn c10_big_records(tag: &str) -> Vec<Vec<u8>> {
     match tag {
         "all-S5-le-6" => crate::enumr::strings(crate::enumr::S5, 0, 6),
         "all-S5-le-5" => crate::enumr::strings(crate::enumr::S5, 0, 5),
+        "ten-thousand" => (0..10_050usize).map(|i| long_record(3 + i % 5, i as u64)).collect(),
+        "long-records" => (0..12u64).map(|i| long_record(20_000, 100 + i)).collect(),
         _ => panic!("unknown record set"),
     }
 }
@@ -1009,6 +1037,19 @@ pub fn c10_configs(ctx: &mut Ctx) {
                     c10_free(ctx, &MinCase { threads, w, m, records: big.clone() }, tag);
                 }
             }
+        }
+    }
+    // more than 10 000 records (a threshold visible in the worker loops) and long records, free-running
+    let many: Vec<Vec<u8>> = (0..10_050usize).map(|i| long_record(3 + i % 5, i as u64)).collect();
+    for (mm, w, threads) in [(2usize, 0usize, 4usize), (2, 3, 16)] {
+        if sh.mine() {
+            c10_free(ctx, &MinCase { threads, w, m: mm, records: many.clone() }, "ten-thousand");
+        }
+    }
+    let longs: Vec<Vec<u8>> = (0..12u64).map(|i| long_record(20_000, 100 + i)).collect();
+    for threads in [2usize, 8, 16] {
+        if sh.mine() {
+            c10_free(ctx, &MinCase { threads, w: 4, m: 3, records: longs.clone() }, "long-records");
         }
     }
     // lists of short records
